@@ -114,6 +114,9 @@ pub struct Case {
     pub inputs: Vec<(u64, bool)>,
     pub outputs: Vec<Out>,
     pub devs: Vec<Dev>,
+    /// under the chain-aware validator
+    #[serde(default)]
+    pub onchain: bool,
 }
 
 fn pol(id: u8) -> lightning_signer::policy::simple_validator::SimplePolicy {
@@ -242,6 +245,10 @@ fn run_case(case: &Case) -> Res {
     // ---- world ----
     let mut cfg = WorldCfg::default();
     cfg.policy = Some(pol(case.pol));
+    if case.onchain {
+        cfg.onchain = true;
+        cfg.oracle_pubkeys = vec![crate::chain::oracle_pub(0)];
+    }
     let net = cfg.network;
     let w = World::new(cfg);
     let node = w.node.clone();
@@ -663,16 +670,22 @@ fn bases() -> Vec<Case> {
         for allow in 0..3u8 {
             for entry in 0..3u8 {
                 // a wallet spend with change and an allowlisted destination
-                v.push(Case { pol, allow, entry, inputs: vec![(1_000_600, true)], outputs: vec![Out { k: OutK::Wallet(0), value: 600_000 }, Out { k: OutK::Allowlisted, value: 400_000 }], devs: vec![] });
+                v.push(Case { pol, allow, entry, inputs: vec![(1_000_600, true)], outputs: vec![Out { k: OutK::Wallet(0), value: 600_000 }, Out { k: OutK::Allowlisted, value: 400_000 }], devs: vec![], onchain: false });
                 // single-channel funding with change
-                v.push(Case { pol, allow, entry, inputs: vec![(4_000_700, true)], outputs: vec![Out { k: OutK::Fund(1, FundK::Good), value: 3_000_000 }, Out { k: OutK::Wallet(0), value: 1_000_000 }], devs: vec![] });
+                v.push(Case { pol, allow, entry, inputs: vec![(4_000_700, true)], outputs: vec![Out { k: OutK::Fund(1, FundK::Good), value: 3_000_000 }, Out { k: OutK::Wallet(0), value: 1_000_000 }], devs: vec![], onchain: false });
                 // funding with change and a payment to an unknown destination (needs approval)
-                v.push(Case { pol, allow, entry, inputs: vec![(4_010_700, true)], outputs: vec![Out { k: OutK::Fund(1, FundK::Good), value: 3_000_000 }, Out { k: OutK::Wallet(0), value: 1_000_000 }, Out { k: OutK::Foreign, value: 10_000 }], devs: vec![] });
+                v.push(Case { pol, allow, entry, inputs: vec![(4_010_700, true)], outputs: vec![Out { k: OutK::Fund(1, FundK::Good), value: 3_000_000 }, Out { k: OutK::Wallet(0), value: 1_000_000 }, Out { k: OutK::Foreign, value: 10_000 }], devs: vec![], onchain: false });
                 // two channels funded at once from two inputs
-                v.push(Case { pol, allow, entry, inputs: vec![(3_000_000, true), (2_000_900, true)], outputs: vec![Out { k: OutK::Fund(1, FundK::Good), value: 3_000_000 }, Out { k: OutK::Fund(2, FundK::Good), value: 1_500_000 }, Out { k: OutK::Wallet(0), value: 500_000 }], devs: vec![] });
+                v.push(Case { pol, allow, entry, inputs: vec![(3_000_000, true), (2_000_900, true)], outputs: vec![Out { k: OutK::Fund(1, FundK::Good), value: 3_000_000 }, Out { k: OutK::Fund(2, FundK::Good), value: 1_500_000 }, Out { k: OutK::Wallet(0), value: 500_000 }], devs: vec![], onchain: false });
             }
         }
     }
+    // the same bases under the chain-aware validator (first policy and allowlist)
+    let oc: Vec<Case> = v.iter().filter(|c| c.pol == 0 && c.allow == 0).cloned().map(|mut c| {
+        c.onchain = true;
+        c
+    }).collect();
+    v.extend(oc);
     v
 }
 
